@@ -25,7 +25,7 @@ impl ProgProperty for C10 {
         }
     }
     fn mix(&self, _tier: Tier) -> Mix {
-        Mix { raw: 30, strukt: 35, div: 0, wide: 5, big: 0, roam: 30, deep: 0, commented: 0 }
+        Mix { raw: 30, strukt: 35, div: 0, wide: 5, big: 0, roam: 30, deep: 0, commented: 0, hibits: 0 }
     }
     fn max_steps(&self) -> u64 {
         1_000_000
